@@ -151,7 +151,7 @@ def anchor(ck, rel, pattern, what):
 
 def jsonl(out):
     res = []
-    for l in out.splitlines():
+    for l in jlines(out):
         l = l.strip()
         if l.startswith("{"):
             try:
